@@ -185,7 +185,7 @@ impl CaseInput for ReqCase {
         let extras = (0..nex)
             .map(|_| {
                 let k = if r.chance(1, 4) {
-                    r.pick(&["client_id", "scope", "redirect_uri", "grant_type", "code", "client_secret", "token"]).to_string()
+                    r.pick(SPECIAL_PARAM_NAMES).to_string()
                 } else {
                     gen::mixed(r)
                 };
@@ -243,7 +243,7 @@ impl CaseInput for ReqCase {
                     c = c.set_client_secret(ClientSecret::new(s.clone()));
                 }
                 if let Some(r) = &self.client_redirect {
-                    c = c.set_redirect_uri(RedirectUrl::new(r.clone()).unwrap());
+                    c = c.set_redirect_uri(make_redirect(r, self.order >> 3));
                 }
                 c
             }};
@@ -327,12 +327,19 @@ impl CaseInput for ReqCase {
                     match st {
                         0 => {
                             if let Some(v) = &self.verifier {
+                                // sometimes set twice: the LAST value given is the one that counts
+                                if self.order & 2 == 2 {
+                                    rq = rq.set_pkce_verifier(PkceCodeVerifier::new(format!("decoy-{v}")));
+                                }
                                 rq = rq.set_pkce_verifier(PkceCodeVerifier::new(v.clone()));
                             }
                         }
                         1 => {
                             if let Some(o) = &self.override_redirect {
-                                rq = rq.set_redirect_uri(Cow::Owned(RedirectUrl::new(o.clone()).unwrap()));
+                                if self.order & 4 == 4 {
+                                    rq = rq.set_redirect_uri(Cow::Owned(RedirectUrl::new("https://decoy.example/first".into()).unwrap()));
+                                }
+                                rq = rq.set_redirect_uri(Cow::Owned(make_redirect(o, self.order >> 5)));
                             }
                         }
                         _ => rq = extras!(rq),
@@ -386,6 +393,9 @@ impl CaseInput for ReqCase {
                 let t = AccessToken::new(self.a.clone());
                 let mut rq = c.introspect(&t);
                 if let Some(h) = &self.hint {
+                    if self.order & 2 == 2 {
+                        rq = rq.set_token_type_hint("decoy_hint");
+                    }
                     rq = rq.set_token_type_hint(h.clone());
                 }
                 let res = extras!(rq).request(&http);
